@@ -117,7 +117,7 @@ def rule_E1(prog, fixture=False):
         # BFS over callees; an intermediate non-throwing function stops propagation (it is its own obligation)
         path = _find_throw_path(prog_view, f.usr, throwers, nothrow)
         rel = prog.rel(f.file)
-        props = ["C05"] + (["C04"] if (C04_FILES.search(rel) or (fixture and "slice" in f.name)) else [])
+        props = ["C05"] + (["C04"] if (C04_FILES.search(rel) or "slice" in f.name.rsplit("::", 1)[-1]) else [])
         if rel.endswith("include/dsplib/array.h") or rel.endswith("include/dsplib/types.h"):
             props.append("C03")       # a length mismatch of the element-wise operators is to be rejected by an exception, not std::terminate
         key = "E1:" + fkey(f)
